@@ -408,8 +408,9 @@ class MinErrorFlow():
                 # edge_subset = edge_subset[:30]        
 
                 # Getting all the different 'flow_attr' values in the corrected graph
+                # (count the values of the solution itself: edges without `flow_attr` also carry a flow value)
                 ub_different_flow_values = len(set(
-                    corrected_graph[u][v].get(self.flow_attr, 0)
+                    self.edge_sol[(u, v)]
                     for (u, v) in edge_subset
                 ))
 
